@@ -244,6 +244,13 @@ def _scale_contract(finite):
         c.ensure_eq('C07.scale.entrance_pupil_diameter_scaled', lens.aperture.value, s * epd0)
         c.ensure_eq('C07.scale.physical_apertures_scaled', ap.r_max, s * rmax0)
         c.ensure_eq('C07.scale.physical_apertures_scaled', ap.r_min, s * rmin0)
+        # ... and the scaled aperture is the one that clips (not a limit remembered from before the scaling)
+        px, py = c.real('probe_x', -8, 8), c.real('probe_y', -8, 8)
+        probe = mk_rays(c, (px, py, 0.0), (0.0, 0.0, 1.0))
+        ap.clip(probe)
+        r2 = px * px + py * py
+        inside = c.decide(r2 <= (s * rmax0) ** 2) and c.decide(r2 >= (s * rmin0) ** 2)
+        c.ensure_eq('C07.scale.scaled_aperture_is_the_one_that_clips', c.val(probe.i), 1.0 if inside else 0.0)
         c.ensure_eq('C07.scale.angular_fields_unchanged', lens.fields.fields[0].y, fy0)
         for j in range(4):
             c.ensure_eq('C07.scale.indices_unchanged', lens.surface_group.surfaces[j].material_post.n(0.55), v['n'][j])
